@@ -19,7 +19,52 @@ namespace nmtools::index
     struct dynamic_slice_t {};
 
     /**
-     * @brief Compute range (number of dim at specific axis) ignoring the value of step
+     * @brief Normalize start, stop and step of a slice on an axis of given length, following python's slice.indices:
+     * a missing step is 1; negative start / stop are counted from the end; values outside the axis are clamped to
+     * [0,si] (positive step) or [-1,si-1] (negative step); a missing start / stop is the end the step starts from / walks to.
+     * 
+     * @param si        shape at i-th axis
+     * @param start_    start (index or None)
+     * @param stop_     stop (index or None)
+     * @param step_     step (index or None)
+     * @return constexpr auto tuple of normalized (start,stop,step), signed
+     */
+    template <typename si_t, typename start_t, typename stop_t, typename step_t>
+    constexpr inline auto normalize_slice(si_t si_, [[maybe_unused]] start_t start_, [[maybe_unused]] stop_t stop_, [[maybe_unused]] step_t step_)
+    {
+        using index_t = meta::make_signed_t<nm_size_t>;
+        const auto si = static_cast<index_t>(si_);
+        const auto step = [&]() -> index_t {
+            if constexpr (is_none_v<step_t>) {
+                return 1;
+            } else {
+                return static_cast<index_t>(step_);
+            }
+        }();
+        const index_t lower = (step > 0 ? 0 : -1);
+        const index_t upper = (step > 0 ? si : si - 1);
+        auto normalize = [&]([[maybe_unused]] auto value, index_t none_value) -> index_t {
+            if constexpr (is_none_v<decltype(value)>) {
+                return none_value;
+            } else {
+                auto v = static_cast<index_t>(value);
+                if (v < 0) {
+                    v += si;
+                    v = (v < lower ? lower : v);
+                } else {
+                    v = (v > upper ? upper : v);
+                }
+                return v;
+            }
+        };
+        const auto start = normalize(start_, (step > 0 ? lower : upper));
+        const auto stop  = normalize(stop_,  (step > 0 ? upper : lower));
+        using result_t = nmtools_tuple<index_t,index_t,index_t>;
+        return result_t{start,stop,step};
+    }
+
+    /**
+     * @brief Compute range (number of dim at specific axis) ignoring the magnitude of step
      * 
      * @tparam si_t 
      * @tparam start_t 
@@ -32,61 +77,12 @@ namespace nmtools::index
      * @return constexpr auto 
      */
     template <typename si_t, typename start_t, typename stop_t, typename step_t>
-    constexpr inline auto compute_range(si_t si, [[maybe_unused]] start_t start, stop_t stop_, [[maybe_unused]] step_t step_) // -> size_type
+    constexpr inline auto compute_range(si_t si, start_t start_, stop_t stop_, step_t step_) // -> size_type
     {
-        // following numpy, stop is actually max(stop,shape_i)
-        [[maybe_unused]] auto stop = [&](){
-            if constexpr (is_none_v<stop_t>)
-                return si;
-            else {
-                using stop_type = meta::promote_index_t<stop_t,meta::remove_cvref_t<decltype(si)>>;
-                return static_cast<stop_type>(stop_) < static_cast<stop_type>(si) ?
-                    static_cast<stop_type>(stop_) : static_cast<stop_type>(si);
-            }
-        }();
-
-        // workaround to ambiguous call to std abs, mostly because need to refactor avoiding
-        // gcc 8 internal compiler error :|
-        // gcc 8 no longer supported, maybe cleanup this code
-        [[maybe_unused]] auto abs_ = [](auto v) { return v < 0 ? -v : v; };
-        // both start and stop is none, simply returh shape for this axis
-        if constexpr (is_none_v<start_t> && is_none_v<stop_t>) {
-            return si;
-        }
-        // need start + 1 for such following case: 2::-?
-        // for such case, allowed indices should be (0,1,2) (range of 3) hence start + 1
-        else if constexpr (meta::is_index_v<start_t> && is_none_v<stop_t> && meta::is_index_v<step_t>) {
-            return (step_ < 0 && start >= 0) ? start + 1 : si - start;
-        }
-        else if constexpr (meta::is_index_v<start_t> && is_none_v<stop_t>) {
-            return si - start;
-        }
-        // start is none, a.k.a. zero
-        else if constexpr (is_none_v<start_t> && meta::is_index_v<stop_t>) {
-            return (stop_ < 0 ? (si + stop_) : stop);
-        }
-        else /* if constexpr (meta::is_index_v<start_t> && meta::is_index_v<stop_t>) */ {
-            // to make sure we have consistent return types
-            using result_t = meta::promote_index_t<start_t,stop_t>;
-            // note that here we use "stop" instead of "stop_",
-            // also note that stop is already normalized
-            if ((stop < 0) && (start < 0)) {
-                return static_cast<result_t>((si - abs_(stop)) - (si - abs_(start)));
-            } else if ((stop < 0) && (start >= 0)) {
-                // sample case
-                // a[0:-1,...] with shape(a) = (2,3,2)
-                return static_cast<result_t>((si - abs_(stop)) - start);
-            } else if ((stop >= 0) && (start < 0)) {
-                return static_cast<result_t>(stop - (si - abs_(start)));
-            } else /* if ((stop >= 0) && (start >= 0)) */ {
-                // the following should works for both negative and positive step
-                if ((result_t)stop > (result_t)start) {
-                    return static_cast<result_t>(stop - start);
-                } else {
-                    return static_cast<result_t>(start - stop);
-                }
-            }
-        }
+        const auto [start, stop, step] = normalize_slice(si,start_,stop_,step_);
+        // the distance walked from start towards stop in the direction of step, empty when stop is not ahead of start
+        const auto range = (step > 0 ? stop - start : start - stop);
+        return (range > 0 ? range : 0);
     }
 
     template <typename step_t>
@@ -105,176 +101,13 @@ namespace nmtools::index
     template <typename indices_t, typename si_t, typename start_t, typename stop_t, typename step_t, typename i_i_t>
     constexpr inline auto compute_index(const indices_t& indices, si_t si, start_t start_, stop_t stop_, step_t step_, i_i_t i_i)
     {
-        using index_t [[maybe_unused]]  = meta::get_index_element_type_t<indices_t>;
-        using sindex_t [[maybe_unused]] = meta::make_signed_t<index_t>;
-        using result_t [[maybe_unused]] = meta::make_unsigned_t<index_t>;
-        [[maybe_unused]] auto start = start_; // just alias
-        // following numpy, stop is actually (stop,shape_i)
-        [[maybe_unused]] auto stop = [&](){
-            if constexpr (is_none_v<stop_t>)
-                return si;
-            // clip value, keep sign
-            else {
-                using common_t = meta::promote_index_t<stop_t,si_t>;
-                auto s = static_cast<common_t>(stop_) < static_cast<common_t>(si)
-                            ? static_cast<common_t>(stop_) : static_cast<common_t>(si);
-                        s = static_cast<common_t>(s) > static_cast<common_t>(-si)
-                            ? static_cast<common_t>(s) : static_cast<common_t>(-si);
-                return s;
-            }
-        }();
-        // alias
-        [[maybe_unused]] auto step = step_;
-        // (1) simplest case: all is none
-        if constexpr (is_none_v<start_t> && is_none_v<stop_t> && is_none_v<step_t>) {
-            // example case:
-            // a[:]
-            auto index = at(indices,i_i);
-            return (result_t)index;
-        }
-        // (2) only start is integer
-        else if constexpr (meta::is_index_v<start_t> && is_none_v<stop_t> && is_none_v<step_t>) {
-            // example case:
-            // a[0::]
-            // a[-1::]
-            auto index = (start >= 0 ? start : stop - start) + at(indices,i_i);
-            return (result_t)index;
-            // return {start >= 0 ? start : stop - start, 1};
-        }
-        // (3) start and stop is integer, can be positive or negative
-        else if constexpr (meta::is_index_v<start_t> && meta::is_index_v<stop_t> && is_none_v<step_t>) {
-            // example case:
-            // a[0:2:]
-            // a[-2:3:]
-            // a[0:-1:]
-            // a[-2:-1:]
-            auto s = index_t{0};
-            if (start >= 0 && stop > 0)
-                s = start;
-            else if (start < 0 && stop > 0)
-                s = stop + start;
-            else if (start >= 0 && stop < 0)
-                s = start;
-            else /* if (start < 0 && stop < 0) */
-                s = si + start;
-            auto index = s + at(indices,i_i);
-            return (result_t)index;
-        }
-        // (4) all three is integer, can be positive or negative
-        else if constexpr (meta::is_index_v<start_t> && meta::is_index_v<stop_t> && meta::is_index_v<step_t>) {
-            auto _start = index_t{0};
-            auto _step  = index_t{0};
-            // step is negative:
-            if /**/ (start >= 0 && stop >= 0 && step < 0) {
-                if (stop > 0) {
-                    _start = stop - 1;
-                    _step  = step;
-                } else {
-                    _start = start;
-                    _step  = step;
-                }
-                // return {stop - 1, step};
-            }
-            else if (start < 0 && stop > 0 && step < 0) {
-                _start = stop + start;
-                _step  = step;
-                // return {stop+start, step};
-            } else if (start >= 0 && stop < 0 && step < 0) {
-                _start = start;
-                _step  = step;
-                // return {start, step};
-            } else if (start < 0 && stop < 0 && step < 0) {
-                _start = si + start - 1;
-                _step  = step;
-                // return {si+start-1, step};
-            }
-            // step is positive:
-            else if (start >= 0 && stop > 0 && step > 0) {
-                _start = start;
-                _step  = step;
-                // return {start, step};
-            } else if (start < 0 && stop > 0 && step > 0) {
-                _start = stop + start;
-                _step  = step;
-                // return {stop+start, step};
-            } else if (start >= 0 && stop < 0 && step > 0) {
-                _start = start;
-                _step  = step;
-                // return {start, step};
-            } else /* if (start < 0 && stop < 0 && step > 0) */ {
-                _start = si + start;
-                _step  = step;
-                // return {si+start, step};
-            }
-            auto index = _start + at(indices,i_i) * _step;
-            return (result_t)index;
-        } else if constexpr (is_none_v<start_t> && meta::is_index_v<stop_t> && is_none_v<step_t>) {
-            auto index = at(indices,i_i);
-            return (result_t)index;
-            // return {0,1};
-        } else if constexpr (is_none_v<start_t> && meta::is_index_v<stop_t> && meta::is_index_v<step_t>) {
-            auto _start = index_t{0};
-            auto _step  = index_t{0};
-            if (stop > 0 && step > 0) {
-                _start = 0;
-                _step  = step;
-                // return {0,step};
-            } else if (stop > 0 && step < 0) {
-                _start = si;
-                _step  = step;
-                // return {si,step};
-            } else if (stop < 0 && step > 0) {
-                _start = 0;
-                _step  = step;
-                // return {0,step};
-            } else /* if (stop > 0 && step > 0) */ {
-                _start = 0;
-                _step  = step;
-                // return {0,step};
-            }
-            auto index = _start + at(indices,i_i) * _step;
-            return (result_t)index;
-        }
-        else if constexpr (is_none_v<start_t> && is_none_v<stop_t> && meta::is_index_v<step_t>) {
-            // example case:
-            // a[::-1]
-            auto _start = sindex_t{0};
-            auto _step  = sindex_t{0};
-            if (step < 0) {
-                _start = si - 1;
-                _step  = step;
-                // return {si-1,step};
-            } else {
-                _start = 0;
-                _step  = step;
-                // return {0,step};
-            }
-            auto index = _start + at(indices,i_i) * _step;
-            return (result_t)index;
-        }
-        else /* if constexpr (meta::is_index_v<start_t> && is_none_v<stop_t> && meta::is_index_v<step_t>) */ {
-            auto _start = index_t{0};
-            auto _step  = index_t{0};
-            if (start >= 0 && step > 0) {
-                _start = start;
-                _step  = step;
-                // return {start, step};
-            } else if (start >= 0 && step < 0) {
-                _start = start;
-                _step  = step;
-                // return {start, step};
-            } else if (start < 0 && step > 0) {
-                _start = si + start;
-                _step  = step;
-                // return {si+start,step};
-            } else /* if (start < 0 && step < 0) */ {
-                _start = start;
-                _step  = step;
-                // return {start, step};
-            }
-            auto index = _start + at(indices,i_i) * _step;
-            return (result_t)index;
-        }
+        using index_t  = meta::get_index_element_type_t<indices_t>;
+        using result_t = meta::make_unsigned_t<index_t>;
+        // k-th element of the slice is the source element at (normalized) start + k * step
+        const auto [start, stop, step] = normalize_slice(si,start_,stop_,step_);
+        static_cast<void>(stop);
+        auto index = start + static_cast<decltype(start)>(at(indices,i_i)) * step;
+        return (result_t)index;
     };
 
     /**
